@@ -150,6 +150,10 @@ trait RescueApi<const W: usize> {
     fn round(s: &mut [Self::F; W], r: usize);
     fn perm(s: &mut [Self::F; W]);
     fn internal(v: u64) -> Self::F; // an element whose internal limb is v (where the type allows it)
+    /// the internal (Montgomery) limb of an element, for the types whose MDS product works on limbs
+    fn limb(_e: Self::F) -> Option<u64> {
+        None
+    }
     fn hash_bytes(_b: &[u8]) -> Option<Vec<Vec<u8>>> {
         None
     }
@@ -188,6 +192,9 @@ impl RescueApi<12> for A64 {
     fn internal(v: u64) -> Self::F {
         f64::BaseElement::from_mont(v % 0xFFFFFFFF00000001)
     }
+    fn limb(e: Self::F) -> Option<u64> {
+        Some(e.inner())
+    }
     fn hash_bytes(b: &[u8]) -> Option<Vec<Vec<u8>>> {
         Some(Rp64_256::hash(b).as_elements().iter().map(|e| ib(*e)).collect())
     }
@@ -225,6 +232,9 @@ impl RescueApi<8> for AJ {
     }
     fn internal(v: u64) -> Self::F {
         f64::BaseElement::from_mont(v % 0xFFFFFFFF00000001)
+    }
+    fn limb(e: Self::F) -> Option<u64> {
+        Some(e.inner())
     }
 }
 struct A62;
@@ -278,7 +288,8 @@ fn rescue_trace<const W: usize, A: RescueApi<W>>(out: &mut dyn Write, nstates: u
         "ark2": A::ark2().iter().map(|r| st(r)).collect::<Vec<_>>()})).unwrap();
     // states with boundary limbs in every position, and random states
     let boundary: [u64; 8] = [0, 1, (1 << 32) - 1, 1 << 32, 0xFFFFFFFF00000000, 0xFFFFFFFEFFFFFFFF, (1 << 63) + 5, u64::MAX];
-    for k in 0..nstates {
+    let ncarry = if A::limb(A::F::ONE).is_some() { nstates.min(W) } else { 0 };
+    for k in 0..nstates + ncarry {
         let mut s = [A::F::ZERO; W];
         for i in 0..W {
             s[i] = if k < 2 * W {
@@ -289,6 +300,16 @@ fn rescue_trace<const W: usize, A: RescueApi<W>>(out: &mut dyn Write, nstates: u
             } else {
                 A::F::from(rng.next() as u32) * A::F::from(rng.next() as u32)
             };
+        }
+        // states that drive the limb-wise MDS product of the first half-round into its final carry branch: the state after
+        // the S-box is chosen limb by limb (boundary limbs, one solved so that row k's integer dot product ends just below
+        // a multiple of 2^64), the input of the round is its image under the inverse S-box
+        if k >= nstates {
+            let i = k - nstates;
+            match carry_state::<W, A>(&mds, i * W / ncarry, i) {
+                Some(x) => s = x,
+                None => eprintln!("harness: no carry state for {} row {}", A::NAME, i * W / ncarry),
+            }
         }
         let start = s;
         let mut chain = vec![st(&s)];
@@ -304,6 +325,54 @@ fn rescue_trace<const W: usize, A: RescueApi<W>>(out: &mut dyn Write, nstates: u
     }
 }
 use winter_utils::Deserializable;
+
+/// A round input whose post-S-box state makes `row` of the limb-wise MDS product overflow in the final reduction
+/// (s_lo + (2^32-1)*s_hi >= 2^64), or None for types without limb access / when no such state is found.
+fn carry_state<const W: usize, A: RescueApi<W>>(mds: &[[A::F; W]; W], row: usize, variant: usize) -> Option<[A::F; W]> {
+    A::limb(A::F::ONE)?;
+    const P: u64 = 0xFFFFFFFF00000001;
+    let m: Vec<u128> = mds[row].iter().map(|e| { let b = e.to_bytes(); u64::from_le_bytes(b[..8].try_into().unwrap()) as u128 }).collect();
+    let jj = (0..W).find(|&j| m[j] % 2 == 1)?;
+    let pats: [u64; 6] = [1 << 32, (1 << 32) - 1, P - 1, 0xFFFFFFFEFFFFFFFF, 0xFFFFFFFF, 0x100000001];
+    let mut t = [0u64; W];
+    for j in 0..W {
+        t[j] = pats[(j + row + variant) % pats.len()];
+    }
+    // inverse of the odd matrix entry modulo 2^64 (Newton iteration)
+    let mm = m[jj] as u64;
+    let mut inv: u64 = 1;
+    for _ in 0..6 {
+        inv = inv.wrapping_mul(2u64.wrapping_sub(mm.wrapping_mul(inv)));
+    }
+    let rest: u128 = (0..W).filter(|&j| j != jj).map(|j| m[j] * t[j] as u128).sum();
+    for delta in [0u64, 1, 12345, 1 << 20, 1 << 31] {
+        let target = u64::MAX - delta;
+        let tj = target.wrapping_sub(rest as u64).wrapping_mul(inv);
+        if tj >= P {
+            continue;
+        }
+        t[jj] = tj;
+        let sum: u128 = rest + m[jj] * tj as u128;
+        let (s_hi, s_lo) = ((sum >> 64) as u64, sum as u64);
+        let z = (s_hi << 32) - s_hi;
+        if s_lo.checked_add(z).is_some() {
+            continue; // no carry with this choice
+        }
+        // the round input: inverse S-box of the chosen state; keep it only if the S-box really lands on the chosen limbs
+        let mut x = [A::F::ZERO; W];
+        let mut ok = true;
+        for j in 0..W {
+            let target_e = A::internal(t[j]);
+            x[j] = target_e.exp(A::INV_ALPHA.into());
+            let back = x[j].exp(A::ALPHA.into());
+            ok &= back == target_e && A::limb(back) == Some(t[j]);
+        }
+        if ok {
+            return Some(x);
+        }
+    }
+    None
+}
 
 /// Part B: the harness feeds the library's permutation along the sponge and records every state before and after each
 /// permutation call together with the digest the library's own hash function returns; Trace_Rescue.tla recomputes the
